@@ -663,8 +663,26 @@ var copyFollowExceptions = map[string]followException{
 	"copy.copyFile/os.OpenFile":                     {reason: "the target was emptied first", check: callerEmptiedTarget},
 }
 
+// onAnchors evaluates a precondition in every function through which the call
+// is reached (the call may sit in a transparent helper split off from it).
+func onAnchors(c *Ctx, call ssa.CallInstruction, f func(fn *ssa.Function) (bool, string)) (bool, string) {
+	as := c.P.Anchors(call.Parent())
+	if len(as) == 0 {
+		return false, "no caller of " + c.name(call.Parent())
+	}
+	for _, fn := range as {
+		if ok, why := f(fn); !ok {
+			return false, why
+		}
+	}
+	return true, ""
+}
+
 func guardedByStatIsDir(c *Ctx, call ssa.CallInstruction) (bool, string) {
-	fn := call.Parent()
+	return onAnchors(c, call, func(fn *ssa.Function) (bool, string) { return guardedByStatIsDirIn(c, fn, call) })
+}
+
+func guardedByStatIsDirIn(c *Ctx, fn *ssa.Function, call ssa.CallInstruction) (bool, string) {
 	x := c.explorer(fn)
 	as := map[string]bool{}
 	for _, cl := range c.P.CallsTo(fn, "(io/fs.FileInfo).IsDir") {
@@ -685,7 +703,10 @@ func guardedByStatIsDir(c *Ctx, call ssa.CallInstruction) (bool, string) {
 }
 
 func guardedByLstatIsDir(c *Ctx, call ssa.CallInstruction) (bool, string) {
-	fn := call.Parent()
+	return onAnchors(c, call, func(fn *ssa.Function) (bool, string) { return guardedByLstatIsDirIn(c, fn, call) })
+}
+
+func guardedByLstatIsDirIn(c *Ctx, fn *ssa.Function, call ssa.CallInstruction) (bool, string) {
 	x := c.explorer(fn)
 	as := map[string]bool{}
 	for _, cl := range c.P.CallsTo(fn, "(io/fs.FileInfo).IsDir") {
@@ -941,6 +962,9 @@ func r15_1(c *Ctx, rule string) {
 	c.R.Exact(rule, "destructive call sites in package copy", len(sites), 2)
 	for _, call := range sites {
 		fn := call.Parent()
+		if tops := c.tops(call); len(tops) == 1 {
+			fn = tops[0] // the call may sit in a transparent helper split off from its function
+		}
 		key := c.name(fn) + "/" + c.P.CalleeName(call)
 		x := c.explorer(fn)
 		isIt := func(in ssa.Instruction) bool { return in == ssa.Instruction(call) }
